@@ -99,6 +99,23 @@ DESCR = {
 }
 
 
+def from_notes(d):
+    """(change, needs) taken from the seeder's own notes.md when no hand-written description exists"""
+    import re
+    try:
+        t = open(os.path.join(d, 'notes.md')).read()
+    except Exception:
+        return '', ''
+
+    def part(names):
+        for nm in names:
+            m = re.search(r'(?:^|\n)[-* ]*\**%s[^:\n]*:\**\s*(.*?)(?=\n[-* ]*\**(?:Why|Needed|What is needed|What it needs|Verified|Ran|Demo|Still|Effect)[^\n]*:|\Z)' % nm, t, re.S | re.I)
+            if m:
+                return ' '.join(m.group(1).replace('|', '/').split())[:260]
+        return ''
+    return part(['Change']), part(['Needed to manifest', 'What is needed', 'What it needs', 'Needed'])
+
+
 def load(p):
     t = open(p).read()
     i = t.find('{')
@@ -129,6 +146,8 @@ def main(argv):
                 except Exception:
                     f = None
         what, needs = DESCR.get(sid, ('', ''))
+        if not what:
+            what, needs = from_notes(d)
         meta = dict(id=sid, property=sid[:3], change=what, needs_to_manifest=needs,
                     produced_by='fresh sub-agent given only the property text and its own scratch worktree',
                     files=['patch.diff', 'demo.py', 'notes.md'])
